@@ -165,6 +165,81 @@ def run(chk):
         wit = problems[0] if problems else "%d rows: `prf` is converted with hashing and tried first; `prfAlreadyHashed` (no hashing) only when that gave Ok(None)" % len(rws)
         chk.ob("R1 salt", "R1|%s|prf-first-hashed" % nm, ok, where(b), wit)
 
+    # R1 (flag plumbing): between the two entry conversions (which choose hashing = true for `prf` and false for
+    # `prfAlreadyHashed`, judged above) and convert_eval_to_ctap, the hashing flag is only ever *handed on*: every call of
+    # the converter — in a closure, a helper, or a helper's closure — passes the enclosing function's own flag parameter,
+    # never a constant and never a negation. A constant is accepted only in the entries themselves.
+    def _capture(path, k):
+        """term, in the parent body, of capture #k of the closure `path`"""
+        if "::{closure#" not in path:
+            return None, None
+        parent = path.rsplit("::{closure#", 1)[0]
+        pb = p.bodies.get(parent)
+        if pb is None:
+            return None, None
+        Tp = flow.Terms(p, pb)
+        for bb, st_ in pb.stmts():
+            if st_["k"] == "assign" and st_.get("rv", {}).get("k") == "agg" and st_["rv"].get("def") == path:
+                t_ = Tp.rvalue(st_["rv"], bb, "t") if hasattr(Tp, "rvalue") else None
+                if t_ is None:
+                    ops = st_["rv"]["ops"]
+                    return (Tp.operand(ops[k], bb, "t") if k < len(ops) else None), pb
+                return (t_[2][k] if k < len(t_[2]) else None), pb
+        return None, pb
+
+    def _strip(t_):
+        while isinstance(t_, tuple) and t_ and t_[0] in ("deref", "copy", "ref") and len(t_) == 2:
+            t_ = t_[1]
+        return t_
+
+    def _origin(body, t_, depth=0):
+        """('param', fn-body, i) | ('const', v) | ('other', text): where a bool operand comes from, through captures"""
+        t_ = _strip(flow.simplify_term(t_))
+        if isinstance(t_, tuple) and t_[:1] == ("const",):
+            return ("const", t_[1])
+        if isinstance(t_, tuple) and t_[:1] == ("param",) and "::{closure#" not in body.path.rsplit("::", 1)[-1] and not body.path.endswith("}"):
+            return ("param", body.path, t_[1])
+        if isinstance(t_, tuple) and len(t_) == 3 and t_[0] == "field" and t_[1] == ("param", 1) and body.path.endswith("}") and depth < 4:
+            ct, pb = _capture(body.path, int(t_[2]))
+            if ct is not None:
+                return _origin(pb, ct, depth + 1)
+        return ("other", flow.term_str(t_)[:80])
+
+    cvb = fn(p, "extensions::prf::convert_eval_to_ctap")
+    entries = {b_.path for b_ in (fn(p, "extensions::prf::registration_prf_to_ctap2_input"), fn(p, "extensions::prf::auth_prf_to_ctap2_input")) if b_}
+    if chk.require("R1 salt", "R1|flag-plumbing|converter", cvb, "passkey_client::extensions::prf", "convert_eval_to_ctap not found"):
+        # the converter's hashing flag is found by role: its only `bool` parameter
+        _bools = [i for i in range(1, cvb.arg_count + 1) if cvb.local_ty(i) == "bool"]
+        chk.require("R1 salt", "R1|flag-plumbing|flag-parameter", len(_bools) == 1, where(cvb), "convert_eval_to_ctap has %d bool parameters (expected one hashing flag)" % len(_bools))
+        flagged = {cvb.path: _bools[0]} if len(_bools) == 1 else {}   # function path -> 1-based index of its hashing-flag parameter
+        sites, bad_sites, work = 0, [], list(flagged)
+        while work:
+            target = work.pop()
+            fi = flagged[target]
+            for k_, b_ in sorted(p.bodies.items()):
+                if not k_.startswith("passkey_client::"):
+                    continue
+                for bb, t_ in b_.calls():
+                    if core.callee_of(t_) != target and (t_.get("resolved") or "") != target:
+                        continue
+                    if len(t_["args"]) < fi:
+                        continue
+                    sites += 1
+                    chk.touched(b_)
+                    o_ = _origin(b_, flow.Terms(p, b_).operand(t_["args"][fi - 1], bb, "t"))
+                    owner = b_.path.split("::{closure#")[0]
+                    if o_[0] == "param" and o_[1] == owner:
+                        if owner not in flagged:
+                            flagged[owner] = o_[2]
+                            work.append(owner)
+                    elif o_[0] == "const" and owner in entries:
+                        pass
+                    else:
+                        bad_sites.append("%s → %s: flag = %s" % (short(b_.path), short(target), o_[1:] if o_[0] != "other" else o_[1]))
+        chk.ob("R1 salt", "R1|flag-plumbing|hashing-flag-handed-on-unchanged", not bad_sites and sites >= 7, where(cvb),
+               "call sites of the converter and of the functions that carry its flag: %d (floor 7, counted by hand: three converter calls, two calls each of make_ctap_extension and get_ctap_extension from the entries); flag carriers: %s; sites where the flag is not the enclosing function's own flag parameter: %s"
+               % (sites, sorted(short(x) for x in flagged), bad_sites))
+
     # ---------------- R2
     hm = fn(p, "utils::crypto::hmac_sha256")
     if chk.require("R2 HMAC", "R2|hmac_sha256", hm, "passkey_types::utils::crypto", "hmac_sha256 not found"):
